@@ -1,6 +1,7 @@
 import Lean.Data.Json
 import GBS.Model.Gen
 import GBS.Model.Mixture
+import GBS.Model.SysGen
 /-! JSON codecs for the line protocol (driver only; not part of the verified model). -/
 open Lean
 namespace GBS.Driver
@@ -120,5 +121,8 @@ def optRatToJson : Option Rat → Json
 
 def mixToJson (m : Mix) : Json :=
   Json.mkObj [("abs", optRatToJson m.abs), ("rel", optRatToJson m.rel), ("sys", optRatToJson m.sys)]
+
+def compOf (j : Json) : R SysComp := do
+  pure { els := ← listOf elementOf (← getF j "els"), rel := ← ratOf (← getF j "rel"), generable := ← boolOf (← getF j "gen") }
 
 end GBS.Driver
